@@ -418,6 +418,7 @@ def convert_tlc(rng, s):
 
 TRACE_MODULE, TRACE_CFG = "ChainViewTrace", "ChainViewTrace.cfg"
 KNOWN_KEY = "PendingClaims_LostOnRewind"
+PANIC_KEYS = [("pending_claim_requests.get(&claim_id).is_none()", "panic_duplicate_locktimed_claim_after_commitment_reorg")]
 ENV_OPS = ("conn", "disc", "txs", "best", "unconf", "begin", "reload", "reset")
 MC_ACTIONS = ["MPlain", "MBegin", "MRestart", "MConnect", "MDisconnect", "MTxs", "MUnconfirm", "MBest", "MSync"]
 
@@ -589,6 +590,45 @@ def selftest_on(wd, trace_path, env):
     return {"mutations": len(muts), "rejected": rejected, "kinds": names}
 
 
+def report_panics(bi, tpath, scripts, seen):
+    """Report runs that ended in a panic (once per starting state and message) and cut them out."""
+    lines = open(tpath).read().splitlines()
+    panicked = {}
+    for ln in lines:
+        if '"ev":"panic"' in ln:
+            r = json.loads(ln)
+            panicked[r["run"]] = r
+    if not panicked:
+        return 0
+    drop = set(panicked)
+    for run in list(panicked):
+        if scripts[run - 1]["kind"] == "canon":
+            k = run + 1
+            while k <= len(scripts) and scripts[k - 1]["kind"] == "sched":
+                drop.add(k)
+                k += 1
+    nviol = 0
+    for run, rec in sorted(panicked.items()):
+        msg = rec.get("msg", "")
+        key = next((k for pat, k in PANIC_KEYS if pat in msg), None)
+        sig = (scripts[run - 1]["scen"], msg[:120])
+        seen[sig] = seen.get(sig, 0) + 1
+        if seen[sig] > 1:
+            continue
+        vlib.log("[panic] batch %d run %d (%s, %s): %s" % (bi, run, scripts[run - 1]["scen"], scripts[run - 1]["kind"],
+                                                          msg.replace("\n", " ")[:160]))
+        evs = [json.loads(x) for x in lines if json.loads(x)["run"] == run]
+        if vlib.report_violation(PID, "b%d-run%d-panic" % (bi, run), {
+                "property": PID, "kind": "panic", "message": msg, "script": scripts[run - 1], "trace_of_run": evs,
+                "how_to_replay": "write `script` to s.ndjson; VERIF_VERBOSE=1 harness/target/debug/chainsync "
+                                 "--scripts s.ndjson --out t.ndjson"}, key=key):
+            nviol += 1
+    kept = [ln for ln in lines if json.loads(ln)["run"] not in drop]
+    with open(tpath, "w") as f:
+        f.write("\n".join(kept) + "\n")
+    return nviol
+
+
 def run(tier, seed):
     t0 = time.time()
     wd = vlib.workdir(PID)
@@ -665,6 +705,7 @@ def run(tier, seed):
     env = {"C11_WAIVE": "1"} if known else {}
     nviol = total_events = total_runs = total_syncs = total_calls = panics = waived = 0
     first_ok_trace, sample_scripts, ok_traces = None, [], []
+    panic_seen = {}
     hid = 0
     batches = plan.batches(900 if thorough else 700)
     for bi, hists in enumerate(batches):
@@ -684,6 +725,10 @@ def run(tier, seed):
         total_syncs += summ["syncs"]
         total_calls += summ["calls"]
         panics += summ["panics"]
+        # Panics are data (rule 4): the trace spec has no action for a `panic` record, so such a run can
+        # only be rejected.  They are reported here directly and taken out of the file -- together with
+        # the other schedules of a history whose canonical run panicked -- so that TLC judges the rest.
+        nviol += report_panics(bi, tpath, scripts, panic_seen)
         total, fails = vlib.validate_trace(PID, TRACE_MODULE, TRACE_CFG, tpath, timeout=2400, env=env,
                                            tag="b%d" % bi, max_failures=8)
         total_events += total
@@ -725,7 +770,8 @@ def run(tier, seed):
             if fl["inv"] == "PendingClaimsDeliveryIndependent" and not known:
                 # the recorded class: claims of the canonical delivery are missing in this schedule
                 d = diff.get("R.claims")
-                if d and all(g in d["canonical"] for g in d["this_schedule"]):
+                ops = lambda sigs: {tuple(o) for g in sigs for o in g}
+                if d and ops(d["this_schedule"]) <= ops(d["canonical"]):
                     key = KNOWN_KEY
             name = "b%d-run%d" % (bi, fl["run"])
             what = "panic" if ev.get("ev") == "panic" else (fl["inv"] or "unmatched event")
@@ -764,7 +810,8 @@ def run(tier, seed):
         "histories": len(plan.hists), "schedules_other_than_canonical": nsched,
         "schedules_from_tlc": n_tlc, "schedules_threshold_sweep": n_sweep, "schedules_random": n_rand,
         "starting_states": names, "sync_points_judged": total_syncs, "notification_calls": total_calls,
-        "events_validated": total_events, "impl_panics": panics, "anti_reorg_delay": ard,
+        "events_validated": total_events, "impl_panics": panics,
+        "impl_panic_classes": {"%s: %s" % (k[0], k[1][:80]): v for k, v in panic_seen.items()}, "anti_reorg_delay": ard,
         "known_finding_waived_sync_points": waived, "binding_selftest": st, "exhaustive": False,
     }
     vlib.write_evidence(PID, tier, seed, "model_checking", cov, [
